@@ -285,16 +285,19 @@ Definition progress_b (N : nat) (W : Z) (obs : list (list cell * nat)) : bool :=
     | c :: t => Nat.ltb 0 c && increasing_from c t && Nat.eqb (last (c :: t) 0%nat) N
     end.
 
-(* conservation, line by line: the non-whitespace cells of line i are those of the input
-   cells consumed by the i-th Scan, in order (cells compared with width and style) *)
-Fixpoint conserve_b (is_space : cell -> bool) (input : list cell) (N a : nat) (obs : list (list cell * nat)) : bool :=
+(* conservation, line by line: what line i keeps of the input cells consumed by the i-th Scan.
+   [same line consumed] is the comparison: for rich text the non-whitespace cells (with width and
+   style), for plain text (a string) the non-whitespace code points. *)
+Fixpoint conserve_b (same : list cell -> list cell -> bool) (input : list cell) (N a : nat) (obs : list (list cell * nat)) : bool :=
   match obs with
   | [] => true
   | (line, r) :: t =>
       let e := (N - r)%nat in
-      list_eqb cell_eqb (nonspace is_space line) (nonspace is_space (sub input a e))
-      && conserve_b is_space input N e t
+      same line (sub input a e) && conserve_b same input N e t
   end.
+
+Definition same_cells (is_space : cell -> bool) (line consumed : list cell) : bool :=
+  list_eqb cell_eqb (nonspace is_space line) (nonspace is_space consumed).
 
 (* nearest break opportunity at or before / at or after a position; B 0 and B N count *)
 Fixpoint prev_break (B : nat -> bool) (c : nat) : nat :=
@@ -329,12 +332,12 @@ Definition hardbreak_b hasbreak (input : list cell) (obs : list (list cell * nat
   hardbreak_from hasbreak 0 input (cuts_of (length input) obs).
 
 (* the whole property on one observation (W = 0: Scan refuses, nothing is emitted) *)
-Definition c16_ok_b is_space hasbreak B (W : Z) (input : list cell) (obs : list (list cell * nat)) : bool :=
+Definition c16_ok_b is_space hasbreak (same : list cell -> list cell -> bool) B (W : Z) (input : list cell) (obs : list (list cell * nat)) : bool :=
   let N := length input in
   progress_b N W obs &&
   forallb (fun x => fits_b is_space W (fst x)) obs &&
   ((W =? 0) ||
-   (conserve_b is_space input N 0 obs && nosplit_b is_space B W input obs && hardbreak_b hasbreak input obs)).
+   (conserve_b same input N 0 obs && nosplit_b is_space B W input obs && hardbreak_b hasbreak input obs)).
 
 (* ---------- break opportunities, from the oracle alone ---------- *)
 
@@ -380,6 +383,8 @@ Definition to_obs (o : obs_t) : list (list cell * nat) := map (fun x => (fst x, 
 (* lines are compared as the implementation exposes them: text.go as a string (runes),
    richtext.go as cells *)
 Definition flat (l : list cell) : list Z := concat (map c_runes l).
+Definition nonspace_runes (l : list cell) : list Z := filter (fun r => negb (go_isspace r)) (flat l).
+Definition same_runes (line consumed : list cell) : bool := zlist_eqb (nonspace_runes line) (nonspace_runes consumed).
 
 Definition flags_ok (input : list cell) (spaces breaks : list bool) : bool :=
   list_eqb Bool.eqb (map cell_is_space input) spaces && list_eqb Bool.eqb (map cell_hasbreak input) breaks.
@@ -411,7 +416,7 @@ Definition plain_case_violation (k : plain_case) : bool :=
   | Some bl =>
       existsb (fun r : run_t => let '(W, obs, code) := r in
                  negb ((code =? 0) && obs_nonneg obs &&
-                       c16_ok_b cell_is_space cell_hasbreak (B_of_list bl) W input (to_obs obs))) runs
+                       c16_ok_b cell_is_space cell_hasbreak same_runes (B_of_list bl) W input (to_obs obs))) runs
   end.
 
 Definition c16_plain_mismatches (cases : list plain_case) : list Z := bad_indices plain_case_mismatch cases.
@@ -434,7 +439,7 @@ Definition rich_case_violation (k : rich_case) : bool :=
   let B := rich_B cell_hasbreak (tbl_pairbrk tbl) input in
   existsb (fun r : run_t => let '(W, obs, code) := r in
              negb ((code =? 0) && obs_nonneg obs &&
-                   c16_ok_b cell_is_space cell_hasbreak B W input (to_obs obs))) runs.
+                   c16_ok_b cell_is_space cell_hasbreak (same_cells cell_is_space) B W input (to_obs obs))) runs.
 
 Definition c16_rich_mismatches (cases : list rich_case) : list Z := bad_indices rich_case_mismatch cases.
 Definition c16_rich_violations (cases : list rich_case) : list Z := bad_indices rich_case_violation cases.
